@@ -254,10 +254,17 @@ func (m *Machine) hexEncode(bs []*Term, upper bool) []*Term {
 	nib := func(n *Term) *Term { // n: 8-bit term holding 0..15
 		return tb.Ite(tb.Ult(n, tb.Const(10, 8)), tb.Add(n, tb.Const('0', 8)), tb.Add(n, tb.Const(a-10, 8)))
 	}
+	if m.hexNib == nil {
+		m.hexNib = map[*Term]*Term{}
+	}
 	for _, b := range bs {
 		hi := tb.Zext(tb.Extract(b, 7, 4), 8)
 		lo := tb.Zext(tb.Extract(b, 3, 0), 8)
-		out = append(out, nib(hi), nib(lo))
+		ch, cl := nib(hi), nib(lo)
+		// remember which nibble each character encodes: decoding it back needs no case analysis
+		m.hexNib[ch] = tb.Extract(b, 7, 4)
+		m.hexNib[cl] = tb.Extract(b, 3, 0)
+		out = append(out, ch, cl)
 	}
 	return out
 }
@@ -269,6 +276,9 @@ func (m *Machine) hexDecode(s []*Term) ([]*Term, bool) {
 		return nil, false
 	}
 	nib := func(c *Term) (*Term, bool) {
+		if n, ok := m.hexNib[c]; ok {
+			return n, true
+		}
 		isDigit := tb.And(tb.Ule(tb.Const('0', 8), c), tb.Ule(c, tb.Const('9', 8)))
 		isLower := tb.And(tb.Ule(tb.Const('a', 8), c), tb.Ule(c, tb.Const('f', 8)))
 		isUpper := tb.And(tb.Ule(tb.Const('A', 8), c), tb.Ule(c, tb.Const('F', 8)))
